@@ -233,11 +233,13 @@ fn one(ctx: &mut Ctx, parser: &CooklangParser, rng: &mut Rng, input: &str) {
     check_json(ctx, &Stats { what: "scalable", tainted }, &desc, &r, fin, op, Some(&|a: &ScalableRecipe, b: &ScalableRecipe| a == b));
 
     // scaled / converted variants (ScalableRecipe is not Clone: parse again)
-    let factor = match rng.below(6) { 0 => 1.0, 1 => 2.0, 2 => 0.5, 3 => 1.0 / 3.0, _ => (rng.unit_f64() * 6.0 * 1000.0).round() / 1000.0 };
+    // "arbitrary factors": zero and negative ones are accepted by scale() and give finite recipes
+    let factor = match rng.below(9) { 0 => 1.0, 1 => 2.0, 2 => 0.5, 3 => 1.0 / 3.0, 4 => 0.0, 5 => -1.5, 6 => -(rng.unit_f64() * 3.0 * 100.0).round() / 100.0, _ => (rng.unit_f64() * 6.0 * 1000.0).round() / 1000.0 };
+    let servings_target = *rng.pick(&[3u32, 3, 3, 0, 1, 12]);
     let variants: Vec<(&'static str, Box<dyn Fn(ScalableRecipe) -> ScaledRecipe + '_>)> = vec![
         ("default_scale", Box::new(|r| r.default_scale())),
         ("scale", Box::new(move |r| r.scale(factor, parser.converter()))),
-        ("scale_to_servings", Box::new(|r| r.scale_to_servings(3, parser.converter()))),
+        ("scale_to_servings", Box::new(move |r| r.scale_to_servings(servings_target, parser.converter()))),
         ("scale+metric", Box::new(move |r| { let mut s = r.scale(factor, parser.converter()); let _ = s.convert(System::Metric, parser.converter()); s })),
         ("default+imperial", Box::new(|r| { let mut s = r.default_scale(); let _ = s.convert(System::Imperial, parser.converter()); s })),
     ];
@@ -284,7 +286,7 @@ fn frontmatter(rng: &mut Rng, odd_keys: bool) -> String {
 
 const NAMES: &[&str] = &["flour", "sea salt", "olive oil", "é", "./dough", "egg"];
 const UNITS: &[&str] = &["g", "kg", "ml", "l", "cup", "cups", "tsp", "tbsp", "oz", "lb", "°C", "min", "h", "pinch", "F", "C", "in"];
-const VALUES: &[&str] = &["1", "2", "200", "0.5", "1.5", "1/2", "1 1/2", "3/4", "2-3", "1/2-3/4", "0.1", "10.25", "7/3", "a few", "0", "1000000", "1 1/3"];
+const VALUES: &[&str] = &["1", "2", "200", "0.5", "1.5", "1/2", "1 1/2", "3/4", "2-3", "1/2-3/4", "0.1", "10.25", "7/3", "a few", "0", "1000000", "1 1/3", "4-2", "3-3", "1 1/2-1/2"];
 /// what has been written so far (references must have a target)
 #[derive(Default)]
 struct GenState { defined: Vec<&'static str>, cookware: Vec<&'static str>, steps_in_section: usize, finished_sections: usize }
